@@ -202,6 +202,12 @@ func (r *ReaderStream) Read(p []byte) (int, error) {
 // manner that's safe for the assembler (IE: it doesn't block).
 func (r *ReaderStream) Close() error {
 	r.current = nil
+	if !r.first && !r.closed {
+		// Read has received a batch from Reassembled and not acknowledged it
+		// yet: the assembler is waiting on r.done, so release it before
+		// draining, or both sides block forever.
+		r.done <- true
+	}
 	r.closed = true
 	for {
 		if _, ok := <-r.reassembled; !ok {
